@@ -6,6 +6,8 @@ def S(name, build, tiers=("quick", "thorough"), args=(), **kw):
     return d
 
 STAGES = {
+    "C06": [S("native", "native")],
+    "C12": [S("native", "native")],
     "C01": [S("native", "native")],
     "C13": [S("native", "native")],
     "C14": [S("native", "native")],
@@ -21,6 +23,8 @@ STAGES = {
 }
 
 LEVELS = {
+    "C06": "exploration",
+    "C12": "exploration",
     "C01": "exploration",
     "C13": "exploration",
     "C14": "exploration",
@@ -30,6 +34,15 @@ LEVELS = {
 }
 
 ASSUMPTIONS = {
+    "C06": [
+        "the stack pointer of a listed thread is taken from that thread's own context in the same image (crash context for the blamed thread); C04/C05 judge those contexts",
+        "mapping ends and permissions come from the checker's own read of /proc/<pid>/maps; bytes from /proc/<pid>/mem of the quiescent sentinel threads",
+        "at exactly 256/257 pages of guard distance either outcome (found / empty) is accepted",
+    ],
+    "C12": [
+        "generated layouts keep the biased and the system address range of a mapping equal (as on Linux without Android relocation packing)",
+        "live level: a word may survive if it lies in a merged file group containing an executable line; it must survive if it lies in an executable line, the stack line or is a small integer",
+    ],
     "C01": [
         "the strict decoder in harness/src/image.rs encodes the minidump layout rules correctly (struct sizes from the format definition)",
         "only Ok dumps are judged; Err/panic outcomes are counted as no-verdict here and judged by C02",
@@ -57,6 +70,16 @@ ASSUMPTIONS = {
 }
 
 META = {
+    "C06": {
+        "technique": "image-vs-target oracle on real dumps of sentinel threads with shaped private stacks (chosen in-page sp offsets, guard/unmapped sp, thread-count and size-limit boundary classes)",
+        "level_text": "Each listed thread's stack region is judged against its own stack pointer, the checker's /proc/<pid>/maps parse and /proc/<pid>/mem: containment, start page, exact extent to the mapping end when unshortened, byte equality from sp upward, the shortening bounds (position >= 20, never the crash thread, <= 2 KiB) and the guard-page search. Hundreds (quick) to tens of thousands (thorough, all 4096 in-page offsets) of stacks per run. Exploration.",
+        "level_note": "Whether shortening happens is not asserted (only its bounds), but a run must observe >= 1 shortened stack and >= 1 guard case or it fails as a harness error. 32-bit guard arithmetic is not exercised.",
+    },
+    "C12": {
+        "technique": "reference-classifier monitor (linear scan, no bitmap/cache) against the real sanitize_stack_copy on generated mapping layouts and stack contents; word-by-word judgement of sanitized live dumps",
+        "level_text": "Direct: 200k (quick) / 3M (thorough) generated (layout, stack, sp offset, length) cases, tens of millions of words, compared byte-for-byte with a reference classifier; layouts straddle the 2 MiB pre-filter buckets and alias modulo 2^11, words probe every mapping bound +-1 and the last-hit cache. Live: sanitized dumps judged against target memory. Exploration.",
+        "level_note": "Trusts the 30-line reference classifier. Only 64-bit words.",
+    },
     "C01": {
         "technique": "strict independent minidump decoder + pairwise extent-overlap sweep on returned images of real dumps of generated hostile targets x option combinations; array-slot invariant hook at the source",
         "level_text": "Every returned image of hundreds (quick) / thousands (thorough) of real dumps of generated targets (1..64 threads, named/unnamed/unreadable-name mixes, anonymous and ELF file mappings, fds) under all on/off combinations of the 7 writer options goes through an intolerant decoder that checks header, directory, exact stream sizes, every RVA and pairwise non-overlap with exactly two sanctioned aliasings. Exploration; thorough enumerates all 128 option on/off combinations per thread-count class.",
